@@ -193,6 +193,22 @@ def reqInvalid (r : OReq) : Bool :=
   optBad r.req.flatTail 0 || optBad r.req.numLeaders 0 || optBad r.req.maxIterations 0 ||
   optBad r.req.minIterations 1 || optBad r.req.checkFreq 1
 
+/-- With a flat-tail requirement the STOP iteration depends on the rankings; when scores tie at a checked
+    iterate Go's unstable sort may order them differently from the model's, so the run may legitimately stop at
+    another iteration and return another iterate.  `true` = this request is such a run. -/
+def oapiTiedStop (s : Oapi.Store Float) (req : Oapi.ComputeReq Float) : Bool :=
+  match req.flatTail with
+  | some l =>
+    if l > 0 then
+      match Oapi.prepare constsF s req with
+      | some eff =>
+        (specRun { c := eff.c, p := eff.p, a := eff.a, e := eff.e, t0 := eff.opts.t0, flat := eff.opts.flatTail,
+                   leaders := eff.opts.numLeaders, maxI := eff.opts.maxIterations, minI := eff.opts.minIterations,
+                   freq := eff.opts.checkFreq } fuelCap).tied
+      | none => false
+    else false
+  | none => false
+
 def judgeOapi (prop : String) : P Verdict := do
   let r ← oreq
   expect "|"
@@ -216,6 +232,9 @@ def judgeOapi (prop : String) : P Verdict := do
       | some a, some b => a.dim == b.dim && entriesBitEq a.entries b.entries
       | none, none => true
       | _, _ => false
+    let tiedStop := !scoresClose && o.status == 200 && mStatus == 200 && oapiTiedStop s r.req
+    let scoresClose := scoresClose || tiedStop
+    let scoresBit := scoresBit || tiedStop
     let corr := o.status == mStatus && scoresClose
     -- PROP
     let invalid := reqInvalid r
